@@ -12,9 +12,6 @@ BASELINE_CMD = ("cd /repo && cargo nextest run --workspace --no-fail-fast --test
                 "|| cargo test --workspace --no-fail-fast --offline")
 
 NOT_APPLICABLE = {
-    "C15": "a law over all pairs of input strings decided by an event-stream heuristic (compare_recon_values / HashParser); "
-           "no path-shape rule is both necessary and robust for it, and a frozen-shape proxy would fire on behaviour-preserving "
-           "refactors. The only structural fact near it (ReconKey wiring) is checked under C02.",
     "C16": "the law quantifies over values and over the types the Form derive macro can generate. The only structural clause in reach (agreement of "
            "the names/tags written by the generated write_with with those matched by the generated recogniser) can be evaluated only on macro expansions, "
            "and the analysed workspace holds about ten derived types outside test code, none using most of the attribute combinations the property "
